@@ -13,6 +13,8 @@ CLAIMED = {
 }
 CLAIMED['C08'] = ("Bounded symbolic model checking of the stored-record format: wrapper round trip over fully symbolic metadata (4 x int64, 2 flags), all 256 format ids and 0..4 payload bytes; typed-record round trip with the JSON codec as a contract stub; decoder totality (no panic, no out-of-bounds read, data is a suffix of the input) for every byte string up to 6 (quick) / 12 (thorough) bytes, for 37..40-byte inputs carrying a full GenCode meta block, and for every truncation / single-byte corruption of a valid encoding.",
          "Trusted: go/ssa, symgo, z3; codec (json/yaml/cbor/msgpack/gzip) contract stubs; value-level JSON fidelity is outside the claim.")
+CLAIMED['C09'] = ("Bounded symbolic model checking of dsd dump/load dispatch: all 256 serialization ids x 256 compression ids symbolically, AUTO resolution, GenCode and RAW with real code, HTTP request/response content-type coherence, Accept parsing for canonical headers and every ASCII string up to 3 (quick) / 5 (thorough) bytes, and Load totality on every byte string up to 4 / 6 bytes; third-party codecs and gzip are contract stubs.",
+         "Trusted: go/ssa, symgo, z3; codec and gzip contract stubs (value-level fidelity of JSON/CBOR/MsgPack/YAML and real gzip are outside the claim); http.Header modelled as a map.")
 NA = {}
 def check(pid):
     text, note = CLAIMED[pid]
